@@ -465,14 +465,14 @@ class Session:
         self.drain_events()
 
 def idle_reply_partial(self):
-    """the client has consumed part of an idle reply (a 'changed:' line) but not its OK"""
+    """the client has read a complete 'changed:' line of an idle reply but not yet the complete OK line that ends it
+    (bytes of an incomplete line stay in the connection's buffer; completely parsed lines live in the receive future)"""
     t = self.t
     consumed = bytes(t.stream[:t.pos])
-    # last complete line consumed is a 'changed:' line and the following OK has not been consumed
-    if not consumed.endswith(b'\n'):
-        return b'changed: ' in consumed.split(b'\n')[-1] or (len(consumed.split(b'\n')) >= 2 and consumed.split(b'\n')[-2].startswith(b'changed: ') and False)
-    last = consumed[:-1].split(b'\n')[-1]
-    return last.startswith(b'changed: ')
+    complete = consumed[:consumed.rfind(b'\n') + 1]
+    if not complete:
+        return False
+    return complete[:-1].split(b'\n')[-1].startswith(b'changed: ')
 Server.idle_reply_partial = idle_reply_partial
 
 # ---------------------------------------------------------------------------- interpreting results
